@@ -12,9 +12,12 @@ use proptest::prelude::*;
 use serde::{Deserialize, Serialize};
 use vh::runner::{CaseReport, CaseResult, Ctx, Failure};
 
-use crate::probe::{Exit, Injection, Probe, Rec, MODES};
-use crate::strace;
-use crate::wire::*;
+mod probe;
+mod strace;
+mod wire;
+
+use probe::{Exit, Injection, Probe, Rec, MODES};
+use wire::*;
 
 #[derive(Debug, Clone, Serialize, Deserialize, PartialEq, Eq, Hash)]
 pub struct Fault {
@@ -270,7 +273,7 @@ fn judge_end(env: &Env, case: &Case, out: &Outcome, injected: Option<u32>, fails
 
 fn judge_c05(env: &Env, case: &Case, out: &Outcome, injected: Option<u32>, fails: &mut Vec<Failure>, rep: &mut CaseReport) {
     let mut spawn_no = 0u32; // index of the spawn call over the whole run
-    let joined_tidptrs = RefCell::new(Vec::<(u32, bool)>::new());
+    let mut joined_tids: Vec<u32> = Vec::new();
     for (bi, (b, r)) in case.batches.iter().zip(out.reports.iter()).enumerate() {
         if !r.drained {
             env.ctx.inconclusive();
@@ -331,7 +334,7 @@ fn judge_c05(env: &Env, case: &Case, out: &Outcome, injected: Option<u32>, fails
                 if sr.buf_join != want_buf {
                     fails.push(f(format!("join|memory effects not visible after join|{}", if s.panic { "panicked" } else { "returned" }), format!("{ctxt}: the {} byte buffer written by the closure hashed to {:#x} right after join returned, expected {:#x}", s.buflen, sr.buf_join, want_buf)));
                 }
-                joined_tidptrs.borrow_mut().push((sr.tid, true));
+                joined_tids.push(sr.tid);
             } else {
                 rep.class("handle-dropped");
                 if sr.buf_drain != want_buf {
@@ -350,7 +353,7 @@ fn judge_c05(env: &Env, case: &Case, out: &Outcome, injected: Option<u32>, fails
         let th = strace::threads(log);
         let main = log.per_tid.get(&log.first_tid);
         let waited: BTreeSet<u64> = main.map(|evs| evs.iter().filter(|e| e.name == "futex" && e.pos(1).map(|p| p.trim().starts_with("FUTEX_WAIT")).unwrap_or(false)).filter_map(|e| e.pos_num(0)).collect()).unwrap_or_default();
-        for (tid, _) in joined_tidptrs.borrow().iter() {
+        for tid in joined_tids.iter() {
             if let Some(c) = th.cloned.iter().find(|c| c.tid == *tid) {
                 if waited.contains(&c.tidptr) {
                     rep.class("join-before-finish(futex wait entered)");
@@ -446,7 +449,9 @@ fn judge_c06(env: &Env, case: &Case, out: &Outcome, fails: &mut Vec<Failure>, la
                 fails.push(f(format!("thread exit|stack still mapped after the thread is gone|{}", if b.specs[i].panic { "panic" } else { "return" }), format!("{on}: spec {i} ({}): the word the thread wrote on its own stack at {:#x} is still readable with its value after every thread of the batch exited (a re-mapped page would read 0)", spec_text(&b.specs[i]), sr.canary_addr)));
             }
         }
-        if r.vm_pages != base.vm_pages || r.total != base.total {
+        if !base.reserve_ok {
+            rep.class("mapped-memory-not-judged(allocator reserve did not hold)");
+        } else if r.vm_pages != base.vm_pages || r.total != base.total {
             fails.push(f("batch|mapped memory not back at baseline|VmSize", format!("{on}: VmSize {} pages, /proc/self/maps total {} bytes in {} lines after the batch; baseline {} pages, {} bytes, {} lines ({:+} KiB = {:+.2} thread stacks)", r.vm_pages, r.total, r.lines, base.vm_pages, base.total, base.lines, (r.total as i64 - base.total as i64) / 1024, (r.total as i64 - base.total as i64) as f64 / strace::STACK_SZ as f64)));
         }
         // classes: the 2 x 4(+1) matrix and the flag race
@@ -638,6 +643,11 @@ fn run_case(env: &Env, case: &Case) -> CaseResult {
         "pie-debug" => "build pie-debug",
         _ => "build pie-release",
     });
+    if std::env::var_os("C05_DEBUG").is_some() {
+        for x in fails.iter().chain(late.iter()) {
+            eprintln!("[debug] {} :: {}", x.sig, x.what);
+        }
+    }
     // unknown failures first, so that a recorded finding never masks a different violation
     if let Some(x) = fails.iter().find(|x| !env.known(&x.sig)) {
         return Err(x.clone());
